@@ -194,3 +194,179 @@ Proof.
 Qed.
 
 End Oracles.
+
+(* ------------------------------------------------------------------ *)
+(* AlphabetLookup.parse keeps the grammar a well-formed dict            *)
+
+Definition entry_inv (alphabet : ostr) (e : gentry) : Prop :=
+  NoDup (map fst (ge_next e)) /\ forall c v, In (c, v) (ge_next e) -> in_alphabet alphabet [c] = true.
+
+Definition pinv (A : alookup) : Prop :=
+  NoDup (map fst (al_grammar A)) /\
+  forall k e, In (k, e) (al_grammar A) ->
+    tlen k = (al_ngram A - 1)%Z /\ in_alphabet (al_alphabet A) k = true /\ entry_inv (al_alphabet A) e.
+
+(* what parse never changes *)
+Definition same_config (A B : alookup) : Prop :=
+  al_alphabet B = al_alphabet A /\ al_ngram B = al_ngram A /\ al_min_length B = al_min_length A /\
+  al_max_length B = al_max_length A /\ length (al_ln_lookup B) = length (al_ln_lookup A).
+
+Lemma same_config_refl A : same_config A A.
+Proof. unfold same_config. tauto. Qed.
+
+Lemma same_config_trans A B C : same_config A B -> same_config B C -> same_config A C.
+Proof. unfold same_config. intuition congruence. Qed.
+
+Lemma entry_inv_new alphabet : entry_inv alphabet new_entry.
+Proof. split; simpl; [constructor | tauto]. Qed.
+
+Lemma bump_next_inv alphabet c e e' : entry_inv alphabet e -> bump_next alphabet c e = TOk e' -> entry_inv alphabet e'.
+Proof.
+  intros [Hn Ha]. unfold bump_next. destruct (afind N.eqb c (ge_next e)) as [v|] eqn:E.
+  - destruct (nv_int v) as [n|]; simpl; [|discriminate]. intro H. inversion H. split; simpl.
+    + apply (nodup_keys_aset N.eqb N.eqb_eq). exact Hn.
+    + intros c' v' Hin. apply in_aset in Hin; [|exact N.eqb_eq]. destruct Hin as [[-> _]|Hin].
+      * apply (Ha c v). apply (afind_in N.eqb N.eqb_eq). exact E.
+      * apply (Ha c' v'). exact Hin.
+  - destruct (in_alphabet alphabet [c]) eqn:Ec; intro H; inversion H; subst; [|split; assumption]. split; simpl.
+    + apply (nodup_keys_aset N.eqb N.eqb_eq). exact Hn.
+    + intros c' v' Hin. apply in_aset in Hin; [|exact N.eqb_eq]. destruct Hin as [[-> _]|Hin]; [exact Ec | apply (Ha c' v'); exact Hin].
+Qed.
+
+Lemma parse_pos_inv pw A i A' :
+  (1 <= al_ngram A)%Z -> (0 <= i)%Z -> (i + al_ngram A - 1 <= tlen pw)%Z ->
+  pinv A -> parse_pos pw A i = TOk A' -> pinv A' /\ same_config A A'.
+Proof.
+  intros Hng Hi Hlen [Hnd Hent]. unfold parse_pos. cbv zeta.
+  set (k := tslice pw (Some i) (Some (i + al_ngram A - 1)%Z)).
+  assert (Hk : tlen k = (al_ngram A - 1)%Z) by (unfold k; rewrite tslice_length; lia).
+  assert (Hgo : forall e0, entry_inv (al_alphabet A) e0 -> in_alphabet (al_alphabet A) k = true ->
+            forall (r : tres alookup),
+            r = (e2 <~ (if (i =? tlen pw - (al_ngram A - 1))%Z
+                        then TOk (ge_set_ep_count (if (i =? 0)%Z then ge_set_ip_count e0 (ge_ip_count e0 + 1) else e0)
+                                    (ge_ep_count (if (i =? 0)%Z then ge_set_ip_count e0 (ge_ip_count e0 + 1) else e0) + 1))
+                        else c <~ tindex pw (i + al_ngram A - 1) ;;
+                             bump_next (al_alphabet A) c (if (i =? 0)%Z then ge_set_ip_count e0 (ge_ip_count e0 + 1) else e0)) ;;
+                 let A1 := al_set_grammar A (aset ostr_eqb k e2 (al_grammar A)) in
+                 let A2 := if (i =? 0)%Z then al_set_ip_counter A1 (al_ip_counter A1 + 1) else A1 in
+                 TOk (if (i =? tlen pw - (al_ngram A - 1))%Z then al_set_ep_counter A2 (al_ep_counter A2 + 1) else A2)) ->
+            r = TOk A' -> pinv A' /\ same_config A A').
+  { intros e0 He0 Hka r -> H.
+    set (e1 := if (i =? 0)%Z then ge_set_ip_count e0 (ge_ip_count e0 + 1) else e0) in *.
+    assert (He1 : entry_inv (al_alphabet A) e1) by (unfold e1; destruct (i =? 0)%Z; [destruct e0|]; exact He0).
+    match type of H with (tbind ?m _ = _) => destruct m as [e2|] eqn:E2 end; simpl in H; [|discriminate].
+    assert (He2 : entry_inv (al_alphabet A) e2).
+    { destruct (i =? tlen pw - (al_ngram A - 1))%Z.
+      - inversion E2. destruct e1; exact He1.
+      - destruct (tindex pw (i + al_ngram A - 1)) as [c|]; simpl in E2; [|discriminate]. eapply bump_next_inv; eauto. }
+    assert (HP : pinv (al_set_grammar A (aset ostr_eqb k e2 (al_grammar A)))).
+    { split.
+      - destruct A; simpl. apply (nodup_keys_aset ostr_eqb ostr_eqb_eq). exact Hnd.
+      - intros k' e' Hin. replace (al_grammar (al_set_grammar A (aset ostr_eqb k e2 (al_grammar A)))) with (aset ostr_eqb k e2 (al_grammar A)) in Hin by (destruct A; reflexivity).
+        replace (al_ngram (al_set_grammar A _)) with (al_ngram A) by (destruct A; reflexivity).
+        replace (al_alphabet (al_set_grammar A _)) with (al_alphabet A) by (destruct A; reflexivity).
+        apply in_aset in Hin; [|exact ostr_eqb_eq]. destruct Hin as [[-> ->]|Hin]; [auto | apply Hent; exact Hin]. }
+    inversion H. clear H. split.
+    - destruct A as [a1 a2 a3 a4 a5 a6 a7 a8 a9]; unfold pinv in *; simpl in *.
+      destruct (i =? 0)%Z; destruct (i =? tlen pw - (a2 - 1))%Z; simpl; exact HP.
+    - destruct A as [a1 a2 a3 a4 a5 a6 a7 a8 a9]; unfold same_config; simpl.
+      destruct (i =? 0)%Z; destruct (i =? tlen pw - (a2 - 1))%Z; simpl; tauto. }
+  destruct (afind ostr_eqb k (al_grammar A)) as [e|] eqn:Ef.
+  - destruct (Hent k e (afind_in ostr_eqb ostr_eqb_eq _ _ _ Ef)) as (_ & Hka & He).
+    destruct (in_alphabet (al_alphabet A) k); intro H; eapply (Hgo e He Hka); try reflexivity; exact H.
+  - destruct (in_alphabet (al_alphabet A) k) eqn:Hka.
+    + intro H. eapply (Hgo new_entry (entry_inv_new _) eq_refl); try reflexivity. exact H.
+    + intro H. inversion H. subst. split; [split; assumption | apply same_config_refl].
+Qed.
+
+
+Lemma pinv_ext A B : al_grammar B = al_grammar A -> al_ngram B = al_ngram A -> al_alphabet B = al_alphabet A ->
+  pinv A -> pinv B.
+Proof. unfold pinv. intros -> -> ->. tauto. Qed.
+
+Theorem parse_inv : forall A pw A', (1 <= al_ngram A)%Z -> pinv A -> parse A pw = TOk A' ->
+  pinv A' /\ same_config A A'.
+Proof.
+  intros A pw A' Hng HP. unfold parse. cbv zeta.
+  destruct (_ || _); [intro H; inversion H; subst; split; [exact HP | apply same_config_refl]|].
+  destruct (tindex (al_ln_lookup A) (tlen pw - 1)) as [v|]; simpl; [|discriminate].
+  destruct (nv_int v) as [c|]; simpl; [|discriminate].
+  destruct (tsetindex (al_ln_lookup A) (tlen pw - 1) (NCount (c + 1))) as [ln|] eqn:Es; simpl; [|discriminate].
+  apply tsetindex_length in Es.
+  set (A1 := al_set_ln_counter (al_set_ln_lookup A ln) (al_ln_counter A + 1)).
+  assert (H1 : pinv A1 /\ same_config A A1).
+  { split; [apply (pinv_ext A); try exact HP; destruct A; reflexivity|]. destruct A; unfold same_config; simpl in *. tauto. }
+  intro H. refine (tfoldM_inv (parse_pos pw) (fun s => pinv s /\ same_config A s) _ _ A1 A' H1 H).
+  intros s i s' Hin [Hs Hc] Hstep. apply in_trange in Hin.
+  destruct Hc as (Ha & Hn & Hmi & Hma & Hl).
+  destruct (parse_pos_inv pw s i s') as [Hp' Hc']; try exact Hstep; try exact Hs; try lia.
+  split; [exact Hp' | eapply same_config_trans; [|exact Hc']; unfold same_config; tauto].
+Qed.
+
+Theorem parse_all_inv : forall pws A A', (1 <= al_ngram A)%Z -> pinv A -> parse_all A pws = TOk A' ->
+  pinv A' /\ same_config A A'.
+Proof.
+  intros pws A A' Hng HP H. unfold parse_all in H.
+  refine (tfoldM_inv parse (fun s => pinv s /\ same_config A s) pws _ A A' (conj HP (same_config_refl A)) H).
+  intros s pw s' _ [Hs Hc] Hstep. destruct (parse_inv s pw s') as [Hp' Hc']; try assumption.
+  { destruct Hc as (_ & -> & _). exact Hng. }
+  split; [exact Hp' | eapply same_config_trans; eassumption].
+Qed.
+
+Lemma pinv_init alphabet ngram minl maxl : pinv (alookup_init alphabet ngram minl maxl).
+Proof. split; simpl; [constructor | tauto]. Qed.
+
+(* the invariant is what makes the association lists dicts: the precondition of the
+   equality of the translated smooth_grammar with its model *)
+Lemma pinv_grammar_nodup A : pinv A ->
+  NoDup (map fst (al_grammar A)) /\ forall k e, In (k, e) (al_grammar A) -> NoDup (map fst (ge_next e)).
+Proof. intros [H1 H2]. split; [exact H1|]. intros k e Hin. apply (H2 k e Hin). Qed.
+
+Lemma Forall2_in_r {X Y} (P : X -> Y -> Prop) l ys y : Forall2 P l ys -> In y ys -> exists x, In x l /\ P x y.
+Proof.
+  induction 1; simpl; [tauto|]. intros [->|H1]; [eauto|]. destruct (IHForall2 H1) as (x' & ? & ?). eauto.
+Qed.
+
+Lemma in_alphabet_in alphabet s c : in_alphabet alphabet s = true -> In c s -> In c alphabet.
+Proof.
+  unfold in_alphabet. rewrite forallb_forall. intros H Hc. specialize (H c Hc). apply existsb_exists in H.
+  destruct H as (x & Hx & He). apply N.eqb_eq in He. subst. exact Hx.
+Qed.
+
+Section Trained.
+Variable lg : float -> float.
+Variable fl : float -> Z.
+
+(* MAIN: whatever log / floor are, the tables the trainer builds from ANY password list are
+   the tables the theorems of C11 / C18 are about: well-formed, levels within the guesser's
+   range, and spelled with characters of the alphabet only *)
+Theorem trained_table : forall alphabet ngram max_length pws A,
+  (2 <= ngram)%Z -> (0 <= max_length)%Z ->
+  train lg fl alphabet ngram max_length pws = TOk A ->
+  exists T, ttab_of A = Some T /\ wf_ttab T /\ levels_le guesser_max_level T /\
+    tt_ngram T = Z.to_nat ngram /\ tt_max_len T = Z.to_nat max_length /\
+    forall bad, (forall c, In c alphabet -> ~ In c bad) -> chars_avoid bad T.
+Proof.
+  intros alphabet ngram maxl pws A Hng Hml. unfold train.
+  destruct (parse_all (alookup_init alphabet ngram 1 maxl) pws) as [A0|] eqn:Ep; simpl; [|discriminate].
+  intro Hs. assert (Hng1 : (1 <= al_ngram (alookup_init alphabet ngram 1 maxl))%Z) by (simpl; lia).
+  destruct (parse_all_inv pws _ A0 Hng1 (pinv_init _ _ _ _) Ep) as [[Hnd Hent] (Ha & Hn & Hmi & Hma & Hl)].
+  simpl in Ha, Hn, Hmi, Hma, Hl. rewrite repeat_length in Hl.
+  destruct (smoothed_table lg fl A0 A Hs) as (T & HT & Hle & Tn & Tmi & Tma & Tln & Tk & TF).
+  exists T. split; [exact HT|]. split; [|split; [exact Hle|]].
+  - unfold wf_ttab. rewrite Tn, Tmi, Tma, Tln, Tk, Hn, Hmi, Hma, Hl.
+    replace (1 <? ngram)%Z with true by (symmetry; apply Z.ltb_lt; lia).
+    split; [lia|]. split; [reflexivity|]. split; [reflexivity|]. split; [exact Hnd|].
+    intros te Hte. destruct (Forall2_in_r _ _ _ _ TF Hte) as ([k e] & Hin & Hk & Hnx). simpl in Hk, Hnx.
+    destruct (Hent k e Hin) as (Hlen & _ & Hnd' & _). rewrite Hk, Hnx. split; [|exact Hnd'].
+    rewrite Hn in Hlen. unfold tlen in Hlen. lia.
+  - rewrite Tn, Tma, Hn, Hma. split; [reflexivity|]. split; [reflexivity|].
+    intros bad Hbad te Hte. destruct (Forall2_in_r _ _ _ _ TF Hte) as ([k e] & Hin & Hk & Hnx). simpl in Hk, Hnx.
+    destruct (Hent k e Hin) as (_ & Hka & _ & Hca). rewrite Ha in Hka, Hca. split.
+    + intros c Hc. rewrite Hk in Hc. apply Hbad. eapply in_alphabet_in; eassumption.
+    + intros c l Hcl. assert (Hc : In c (map fst (ge_next e))) by (rewrite <- Hnx; apply (in_map fst _ _ Hcl)).
+      apply in_map_iff in Hc. destruct Hc as ([c' v] & <- & Hcv). simpl. apply Hbad.
+      eapply in_alphabet_in; [apply (Hca c' v Hcv) | left; reflexivity].
+Qed.
+
+End Trained.
